@@ -180,32 +180,37 @@ Variable hd : host -> list N.
 Variable ovr : option (list N -> list N).
 
 (* the tail of the non-special branch once the path state has produced  pre ++ T *)
-Lemma wqf_noauth sch T rest s2 qs fs : starts_with [47] T = true ->
-  parse_query_and_fragment ovr CUrlParser STNotSpecial (nlen sch) (noauth_pre sch T) rest = POk (s2, qs, fs) ->
+Lemma wqf_noauth_eq sch T rest : starts_with [47] T = true ->
   let a := nlen (sch ++ [58]) in
   with_query_and_fragment ovr CUrlParser STNotSpecial (nlen sch) a a a HI_None None a ((sch ++ [58]) ++ T) rest
-  = POk (mkUrl s2 (nlen sch) a a a HI_None None (a + nlen (marker_of T)) qs fs).
+  = (' (s2, qs, fs) <~ parse_query_and_fragment ovr CUrlParser STNotSpecial (nlen sch) (noauth_pre sch T) rest ;;
+     POk (mkUrl s2 (nlen sch) a a a HI_None None (a + nlen (marker_of T)) qs fs)).
 Proof.
-  intros HT Hq a. unfold with_query_and_fragment.
+  intros HT a. unfold with_query_and_fragment.
   assert (a =? nlen sch + 1 = true) as E1 by (unfold a; rewrite nlen_app; unfold nlen; cbn [length]; lia).
   rewrite E1. unfold a. rewrite nskipn_app_len, nfirstn_app_len.
   destruct T as [|t0 T']; [discriminate|]. cbn [starts_with] in HT. rewrite andb_true_r in HT.
   apply N.eqb_eq in HT. subst t0.
-  unfold marker_of, noauth_pre in *.
-  unfold noauth_pre, marker_of in Hq.
+  unfold noauth_pre, marker_of.
   destruct (starts_with s_ss (47 :: T')) eqn:Ess.
-  - (* marker inserted *)
-    assert (starts_with s_css (nskipn (nlen sch) ((sch ++ [58]) ++ [47; 46] ++ 47 :: T')) = false) as E2.
+  - assert (starts_with s_css (nskipn (nlen sch) ((sch ++ [58]) ++ [47; 46] ++ 47 :: T')) = false) as E2.
     { rewrite <- !app_assoc. rewrite nskipn_app_len. reflexivity. }
-    rewrite E2. cbn [negb passert pbind]. rewrite Hq. cbn [pbind]. unfold nlen at 7. cbn [length].
+    rewrite E2. cbn [negb passert pbind]. unfold nlen at 8. cbn [length].
     replace (nlen (sch ++ [58]) + N.of_nat 2) with (nlen (sch ++ [58]) + 2) by lia. reflexivity.
   - assert (starts_with s_css (nskipn (nlen sch) ((sch ++ [58]) ++ 47 :: T')) = false) as E2.
     { rewrite <- !app_assoc. rewrite nskipn_app_len. unfold s_css. cbn [app starts_with].
       replace (58 =? 58) with true by reflexivity. replace (47 =? 47) with true by reflexivity. cbn [andb].
       unfold s_ss in Ess. cbn [starts_with] in Ess.
       replace (47 =? 47) with true in Ess by reflexivity. cbn [andb] in Ess. exact Ess. }
-    rewrite E2. cbn [negb passert pbind app] in *. rewrite Hq. cbn [pbind]. rewrite N.add_0_r. reflexivity.
+    rewrite E2. cbn [negb passert pbind app]. rewrite N.add_0_r. reflexivity.
 Qed.
+
+Lemma wqf_noauth sch T rest s2 qs fs : starts_with [47] T = true ->
+  parse_query_and_fragment ovr CUrlParser STNotSpecial (nlen sch) (noauth_pre sch T) rest = POk (s2, qs, fs) ->
+  let a := nlen (sch ++ [58]) in
+  with_query_and_fragment ovr CUrlParser STNotSpecial (nlen sch) a a a HI_None None a ((sch ++ [58]) ++ T) rest
+  = POk (mkUrl s2 (nlen sch) a a a HI_None None (a + nlen (marker_of T)) qs fs).
+Proof. intros HT Hq a. unfold a. rewrite (wqf_noauth_eq sch T rest HT). cbv zeta. rewrite Hq. reflexivity. Qed.
 
 (* every byte of the canonical serialization is above U+0020 *)
 Lemma above_not_tnl c : above_space c = true -> is_tnl c = false.
